@@ -165,3 +165,27 @@ def spec_query_status_error(self):
         if v:
             return v
     return v
+
+
+# ----------------------------------------------------------------------------- canonical representation
+# A response object with the view (_value = None | backward frame) is produced by the class's real constructor, so that
+# the proof units run on the representation the code really uses.  The contracts above read `_value`; a class whose
+# constructor no longer produces that field has another representation, and nothing can be concluded from them.
+from pyvc.values import register_canon, SObj as _SObj        # noqa: E402
+
+
+def _rebuild_response(interp, cls, view):
+    from pyvc import sym as _sym
+    raw = view["_value"]
+    if _sym.ctx() is None:
+        return cls(raw)
+    o = _SObj(cls, {}, fresh=True)
+    init = interp.find_in_mro(cls, "__init__")
+    interp.call(init, (o, raw), {})
+    if "_value" not in o.fields:
+        raise _sym.Unsupported("%s.__init__ does not set _value: the response contracts are written over another "
+                               "representation of the class" % cls.__name__)
+    return o
+
+
+register_canon(C.Response, ("_value",), _rebuild_response)
